@@ -1,6 +1,7 @@
 (* C22 — definition info points at the right definition: the c/ i/ tag and the visibility of every method of a
    class body are the ones Ruby's section rules give, for every sequence of `private` / `protected` / `public`
-   sections, `def`, `def self.` and `class << self` bodies.  Rows and hover are exercised end to end. *)
+   sections, `def`, `def self.`, `class << self` bodies, `private def m` and `private :m` (which open no section).
+   Rows and hover are exercised end to end. *)
 From RT Require Import Model.Visibility Proofs.VisibilityP.
 
 Theorem C22_tags : forall items, class_tags items = ruby_tags items.
@@ -20,9 +21,17 @@ Theorem C22_pinned_refuted :
   <> ruby_tags [IPrivate; ISingleton [SDef "t"]; IDef "c"; IDefSelf "s"].
 Proof. exact pinned_refuted. Qed.
 
+(* the code before the `private` repair: the keyword opened a section whatever followed it *)
+Theorem C22_private_arguments_pinned_refuted :
+  section_class_loop [IPrivateDef "a"; IDef "b"] {| f_priv := false; f_prot := false |} <> ruby_tags [IPrivateDef "a"; IDef "b"] /\
+  section_class_loop [IDef "a"; IPrivateSym ["a"]; IDef "b"] {| f_priv := false; f_prot := false |} <> ruby_tags [IDef "a"; IPrivateSym ["a"]; IDef "b"].
+Proof. exact section_refuted. Qed.
+Print Assumptions C22_private_arguments_pinned_refuted.
+
 Example C22_example :
   map (fun t => (tg_name t, tg_class_method t, tg_vis t))
-      (class_tags [IDef "a"; IPrivate; IDef "b"; IDefSelf "s"; ISingleton [SDef "t"; SPrivate; SDef "u"]; IDef "c"; IProtected; IDef "d"; IPublic; IDef "e"]) =
+      (class_tags [IDef "a"; IPrivate; IDef "b"; IDefSelf "s"; ISingleton [SDef "t"; SPrivate; SDef "u"]; IDef "c"; IProtected; IDef "d"; IPublic; IDef "e";
+                   IPrivateDef "f"; IDef "g"; IPrivateSym ["g"]; IDef "h"]) =
   [("a", false, Public); ("b", false, Private); ("s", true, Public); ("t", true, Public); ("u", true, Private);
-   ("c", false, Private); ("d", false, Protected); ("e", false, Public)].
+   ("c", false, Private); ("d", false, Protected); ("e", false, Public); ("f", false, Private); ("g", false, Public); ("h", false, Public)].
 Proof. vm_compute. reflexivity. Qed.
